@@ -49,12 +49,16 @@ func (s *sink) count() int {
 // pipe, (3) holding a partial record.
 func runC13fifo(run *mc.Run) int {
 	sshd.SetLogger(zap.NewNop().Sugar())
+	stall := 1500 * time.Millisecond // how long downstream accepts nothing in the slow-hand-off cell
+	if run.Thorough() {
+		stall = 6 * time.Second
+	}
 	dir := scratchDir()
 	n := 0
 	var samples []any
 	lat := map[string]float64{}
 	for _, which := range []string{"syslog-ingester", "auditlog-ingester"} {
-		for _, state := range []string{"waiting-for-writer", "idle-open-pipe", "partial-record-buffered", "after-some-records"} {
+		for _, state := range []string{"waiting-for-writer", "idle-open-pipe", "partial-record-buffered", "after-some-records", "idle-after-slow-handoff"} {
 			n++
 			name := which + "/" + state
 			path := filepath.Join(dir, fmt.Sprintf("c13-%d", n))
@@ -67,6 +71,12 @@ func runC13fifo(run *mc.Run) int {
 			out := &sink{}
 			auditCh := make(chan string, 100)
 			logins := make(chan common.RemoteUserLogin, 100)
+			if state == "idle-after-slow-handoff" {
+				// downstream accepts nothing for a while (back-pressure), then drains: afterwards the worker is
+				// idle on an open pipe again and must still stop on cancellation
+				auditCh = make(chan string)
+				logins = make(chan common.RemoteUserLogin)
+			}
 			var ingest func(context.Context) error
 			delivered := func() int { return out.count() + len(auditCh) }
 			if which == "syslog-ingester" {
@@ -91,6 +101,19 @@ func runC13fifo(run *mc.Run) int {
 				switch state {
 				case "partial-record-buffered":
 					_, _ = w.WriteString("77 Failed password for a from 1.2.3.4 port")
+					for fionread(w) > 0 {
+						time.Sleep(time.Millisecond)
+					}
+				case "idle-after-slow-handoff":
+					_, _ = w.WriteString("77 Accepted password for a from 1.2.3.4 port 22 ssh2\n78 Accepted password for b from 1.2.3.4 port 22 ssh2\n")
+					time.Sleep(stall)
+					for i := 0; i < 2; i++ { // now drain what was held up
+						select {
+						case <-auditCh:
+						case <-logins:
+						case <-time.After(5 * time.Second):
+						}
+					}
 					for fionread(w) > 0 {
 						time.Sleep(time.Millisecond)
 					}
@@ -137,7 +160,7 @@ func runC13fifo(run *mc.Run) int {
 		}
 	}
 	cov := mc.Coverage{Level: "fault_enumeration", Evaluations: n, Distinct: n, Exhaustive: true, Samples: samples,
-		Rule:  "cancellation injected into SyslogIngester.Ingest and AuditLogIngester.Ingest on real FIFOs in each blocking state: waiting for a writer to open the pipe, blocked reading an idle open pipe, holding a partial record, idle after some records; the worker must return within the bound and deliver nothing afterwards. distinct_nontrivial = cells (all are blocking states)",
+		Rule:  "cancellation injected into SyslogIngester.Ingest and AuditLogIngester.Ingest on real FIFOs in each blocking state: waiting for a writer to open the pipe, blocked reading an idle open pipe, holding a partial record, idle after some records, idle after a back-pressure episode in which downstream accepted nothing for 1.5 s (thorough 6 s); the worker must return within the bound and deliver nothing afterwards. distinct_nontrivial = cells (all are blocking states)",
 		Extra: map[string]any{"bound_s": bound.Seconds(), "latency_s": lat}}
 	cov.Assumptions = []string{"real time: the bound (5 s) is three orders of magnitude above observed latencies; the OS scheduler is not controlled"}
 	return run.Finish(cov)
